@@ -11,6 +11,20 @@ def claimed():
     m = json.load(open(os.path.join(VERIF, "MANIFEST.json")))
     return [c["property_id"] for c in m["checks"]]
 
+SNAP = None
+
+
+def snapshot():
+    """checks run from a private copy of /verif so that editing /verif meanwhile cannot disturb them"""
+    global SNAP
+    SNAP = f"/var/tmp/verif-snap-{os.getpid()}"
+    shutil.rmtree(SNAP, ignore_errors=True)
+    subprocess.run(["rsync", "-a", "--exclude", ".venv", "--exclude", "replays", "--exclude", ".git", "--exclude", "__pycache__",
+                    VERIF + "/", SNAP + "/"], check=True)
+    os.symlink(os.path.join(VERIF, ".venv"), os.path.join(SNAP, ".venv"))
+    return SNAP
+
+
 def run_one(seed_dir, name, props, tier):
     scratch = f"/var/tmp/vr-{name}"
     shutil.rmtree(scratch, ignore_errors=True)
@@ -23,7 +37,7 @@ def run_one(seed_dir, name, props, tier):
         out = []
         for p in props:
             env = dict(os.environ, VERIF_REPO=scratch, VERIF_TIER=tier)
-            r = subprocess.run([os.path.join(VERIF, "check"), p, "--tier", tier], cwd=VERIF, env=env, capture_output=True, text=True)
+            r = subprocess.run([os.path.join(SNAP or VERIF, "check"), p, "--tier", tier], cwd=SNAP or VERIF, env=env, capture_output=True, text=True)
             lines = [l for l in r.stdout.splitlines() if l.startswith(("VIOLATION", "CHECKER-ERROR", "KNOWN-FINDING"))]
             und = sum(l.startswith("UNDECIDED") for l in r.stdout.splitlines())
             viol = sorted({re.sub(r"-[0-9a-f]{10}\.json.*$", "", l.split("replay=replays/")[1]) for l in lines if l.startswith("VIOLATION") and "replay=replays/" in l})
@@ -72,6 +86,14 @@ def main():
             props = [p for p in a.props.split(",") if p in cl]
         if props:
             jobs.append((d, name, props))
+    snapshot()
+    try:
+        run_jobs(a, jobs)
+    finally:
+        shutil.rmtree(SNAP, ignore_errors=True)
+
+
+def run_jobs(a, jobs):
     with ThreadPoolExecutor(max_workers=a.workers) as ex:
         for res in ex.map(lambda j: run_one(j[0], j[1], j[2], a.tier), jobs):
             for name, p, txt in res:
